@@ -76,3 +76,37 @@ Definition ok_chain (c : flavour * bool * list mw * option (list mw) * list even
   list_eqb event_eqb (request_trace fw ftl ms strict) obs.
 
 Definition mismatches_chain := mismatches ok_chain.
+
+(** C03 *)
+From V Require Import Model.Route.
+
+Definition opt_eqb {A} (eqb : A -> A -> bool) (a b : option A) : bool :=
+  match a, b with Some x, Some y => eqb x y | None, None => true | _, _ => false end.
+
+(** translation: observed = the seven translated strings in the order of [all_flavours], and
+    the ordered parameter names. *)
+Definition all_flavours := [Echo; Chi; Gin; Gorilla; StdHTTP; Fiber; Iris].
+
+Definition ok_translate (c : template * string * list string * list string) : bool :=
+  let '(t, path, translated, names) := c in
+  String.eqb (openapi_path t) path
+  && list_eqb String.eqb (map (fun fw => translate fw t) all_flavours) translated
+  && list_eqb String.eqb (vars t) names.
+
+Definition mismatches_translate := mismatches ok_translate.
+
+(** dispatch: observed = which operation ran with which positional path values (None = no
+    handler ran). *)
+Definition ok_dispatch (c : list string * list route * string * list string * option (string * list string)) : bool :=
+  let '(base, rs, m, path, obs) := c in
+  opt_eqb (fun a b => String.eqb (fst a) (fst b) && list_eqb String.eqb (snd a) (snd b))
+          (dispatch base rs m path) obs.
+
+Definition mismatches_dispatch := mismatches ok_dispatch.
+
+(** SortParamsByPath: declared names in declaration order; observed = resulting order or error. *)
+Definition ok_sort_params (c : template * list string * option (list string)) : bool :=
+  let '(t, declared, obs) := c in
+  opt_eqb (list_eqb String.eqb) (sort_params_by_path (fun x => x) t declared) obs.
+
+Definition mismatches_sort_params := mismatches ok_sort_params.
